@@ -1,7 +1,7 @@
 CONSTANTS
   NG = 3
   NL = 1
-  Sample = 4000
+  Sample = 1000
   MaxLen = 3
 INIT Init
 NEXT Next
